@@ -13,7 +13,13 @@ package main
 //                 prompt | err-internal | err-enoent | err-tmpfail (one TMPFAIL, then healthy:
 //                 gocbcore's best-effort strategy retries it) | tmpfail-always | delay-short
 //                 (reply after D/3) | delay-long (reply after 2.25 D, i.e. after the call
-//                 has returned) | silent | drop (connection closed without an answer)
+//                 has returned) | silent | drop (connection closed without an answer) |
+//                 rejected-shutdown (the request never reaches the node: DcpClose() + Close() of the client's
+//                 agents first, gocbcore refuses it at dispatch with ErrShutdown and NO callback will ever run) |
+//                 rejected-invalid-vb (per-vBucket DCP calls with vBucket 60000 on a healthy client: refused at
+//                 dispatch, no route).  Own node + client per case, appended after all other jobs (no PRNG draw).
+//                 Must come back at once with an error: `dispatch-error before leak=0`; `hang` = still inside
+//                 5 s later
 // deadline-class  cfg     the ctx deadline is chosen by the caller / config: D = 250 ms here
 //                 const60 hard-coded 60 s in the wrapper (silent only in the thorough tier)
 //                 bg5     context.Background() + gocbcore's own 5 s (cbMetadata.Load; `GetXattrs.bg` =
@@ -118,6 +124,8 @@ type awEnv struct {
 	mu   sync.Mutex
 	plan *awPlan
 	vbN  int
+	// the rejected-shutdown case has closed the client's agents itself
+	dcpClosed, kvClosed bool
 }
 
 func (e *awEnv) hook(r sim.Request) sim.Action {
@@ -196,8 +204,12 @@ func newAwEnv(collections bool, group string) *awEnv {
 }
 
 func (e *awEnv) close() {
-	e.cl.DcpClose()
-	e.cl.Close()
+	if !e.dcpClosed { // gocbcore's DCPAgent.Close panics when called twice
+		e.cl.DcpClose()
+	}
+	if !e.kvClosed {
+		e.cl.Close()
+	}
 	e.node.Close()
 }
 
@@ -595,6 +607,9 @@ func awDeadline(dclass string) time.Duration {
 
 // runs one case on env e (nothing else uses e meanwhile)
 func awRun(e *awEnv, w *awWrapper, beh string, k int, f7 string) awResult {
+	if strings.HasPrefix(beh, "rejected-") {
+		return awRunRejected(e, w, beh, k)
+	}
 	r := awRunOnce(e, w, beh, k, f7)
 	// a time-out under a behaviour that answers at once / after D/3 means the machine was too
 	// busy for the 250 ms deadline, or a defect; a defect is deterministic and survives the re-runs
@@ -923,6 +938,103 @@ func awMultiRunLabelled(m awMultiCase, id string, started func()) awResult {
 	return awResult{op: m.op(), obs: fmt.Sprintf("%s %s blocked=%d", class, tc, blocked), tags: append(tags, "r:"+class)}
 }
 
+// ---------------------------------------------------------------- rejected at dispatch
+
+const awInvalidVb = 60000
+
+// wrappers whose request can be refused at dispatch without killing the process: every one but cbMetadata.Load
+// (any error but KEY_ENOENT panics inside a goroutine of the library) and its twin GetXattrs.bg
+func awRejectedBehs(w *awWrapper) []string {
+	switch w.name {
+	case "cbMetadata.Load", "GetXattrs.bg":
+		return nil
+	case "GetFailOverLogs", "OpenStream", "CloseStream":
+		return []string{"rejected-shutdown", "rejected-invalid-vb"}
+	}
+	return []string{"rejected-shutdown"}
+}
+
+func awRejectedClass(c string) string {
+	switch c {
+	case "conn-error", "other-error", "server-error", "canceled", "unhealthy":
+		return "dispatch-error"
+	case "panic:conn-error", "panic:other-error", "panic:server-error", "panic:canceled", "panic:unhealthy":
+		return "panic:dispatch-error"
+	}
+	return c
+}
+
+// awRunRejected: env e is this case's own (fresh node + client)
+func awRunRejected(e *awEnv, w *awWrapper, beh string, k int) awResult {
+	op := fmt.Sprintf("ao-wire %s %s %s", w.name, beh, w.dclass)
+	filter := awFrameRe[w.name]
+	w.prepare(e, k)
+	call := w.call
+	switch beh {
+	case "rejected-shutdown":
+		// GetCollectionIDs asks the DCP agent `HasCollectionsSupport()` first, and a CLOSED DCP agent says no: the
+		// call then returns (empty map, nil) without any request (observed on the unchanged code; shutdown path
+		// only).  Its request goes through the KV agent: only that one is closed for it.
+		if w.name != "GetCollectionIDs" {
+			e.cl.DcpClose()
+			e.dcpClosed = true
+		}
+		e.cl.Close()
+		e.kvClosed = true
+	case "rejected-invalid-vb":
+		switch w.name {
+		case "GetFailOverLogs":
+			call = func(e *awEnv, k int) string {
+				l, err := e.cl.GetFailOverLogs(awInvalidVb)
+				if err == nil && len(l) == 0 {
+					return "ok-empty"
+				}
+				return awClass(err)
+			}
+		case "OpenStream":
+			call = func(e *awEnv, k int) string { return awOpen(e, awInvalidVb, false) }
+		case "CloseStream":
+			call = func(e *awEnv, k int) string { return awClass(e.cl.CloseStream(awInvalidVb)) }
+		default:
+			return awResult{op: op, obs: "bad-op", tags: []string{"replay-bad-op"}}
+		}
+	default:
+		return awResult{op: op, obs: "bad-op", tags: []string{"replay-bad-op"}}
+	}
+	before := awParked(filter)
+	t0 := time.Now()
+	done := make(chan string, 1)
+	go func() {
+		defer func() {
+			if r := recover(); r != nil {
+				done <- awPanicClass(r)
+			}
+		}()
+		done <- call(e, k)
+	}()
+	var class string
+	select {
+	case class = <-done:
+	case <-time.After(awCallGiveUp):
+		class = "hang"
+	}
+	el := time.Since(t0)
+	class = awRejectedClass(class)
+	leak := 0
+	for i := 0; i < 40; i++ {
+		if leak = awParked(filter) - before; leak <= 0 {
+			leak = 0
+			break
+		}
+		time.Sleep(15 * time.Millisecond)
+	}
+	tc := awTimeClass(el, awDeadline(w.dclass), w.dclass)
+	if class == "hang" {
+		tc = "late"
+	}
+	return awResult{op: op, obs: fmt.Sprintf("%s %s leak=%d", class, tc, leak), tags: []string{"w:" + w.name, "b:" + beh, "r:" + class}}
+}
+
 type awJob struct {
 	w   *awWrapper
 	beh string
@@ -1001,6 +1113,12 @@ func runC20W(c *Ctx) {
 			}
 		}
 		multi = awMultiCases(c) // draws after the lane shuffles: the order of the existing cases is unchanged
+		// rejected-at-dispatch cases: own node each, after every other solo job, no draw
+		for _, w := range ws {
+			for _, beh := range awRejectedBehs(w) {
+				solo = append(solo, awJob{w, beh})
+			}
+		}
 	}
 
 	// the multi-node GetVBucketSeqNos cases go first and stay in the background: their wall time is the
